@@ -429,6 +429,23 @@ def bdf_residuals(F, impl_selfty, O):
     for n in walk(step["body"], into_closures=False):
         if n.get("k") == "LetS" and n.get("init", {}).get("k") == "Closure" and n["pat"].get("k") == "Bind":
             closures[n["pat"]["name"]] = n["init"]
+    # closures written in place as the argument of the inner solve (`self.secant(&mut |bdf, t, y, data| …)`), named by the local the result goes to
+    pm_ = cfg.parent_map(step["body"])
+    for n in walk(step["body"], into_closures=False):
+        if n.get("k") == "MCall" and n.get("name") == "secant":
+            for a in n.get("args", []):
+                c = a
+                while c.get("k") in ("Ref", "Paren", "DropTemps") and isinstance(c.get("e"), dict):
+                    c = c["e"]
+                if c.get("k") == "Path" and len(F.by_path.get(c.get("def") or "", [])) == 1 and len(F.by_path[c["def"]][0]["params"]) == 4:
+                    c = dict(c, fn_item=F.by_path[c["def"]][0])         # a method passed by path: `self.secant(&mut Self::higher_residual)`
+                if (c.get("k") == "Closure" or "fn_item" in c) and not any(c is v or (c.get("fn_item") is not None and c.get("fn_item") is v.get("fn_item")) for v in closures.values()):
+                    nm = None
+                    for anc in cfg.ancestors(pm_, n):
+                        if anc.get("k") == "LetS" and anc.get("pat", {}).get("k") == "Bind":
+                            nm = anc["pat"]["name"]
+                            break
+                    closures[(nm or "inline") + "@%d" % len(closures)] = c
     # which closure feeds the accepted state / the comparison
     out = {"step": step, "solve": sb, "fields": fields, "raw": raw, "closures": {}}
     for name, cl in closures.items():
@@ -438,7 +455,7 @@ def bdf_residuals(F, impl_selfty, O):
         log = []
         Yh = [(sym.S("T%d" % i), sym.S("Y%d" % i)) for i in range(O)]
         it.fields["self.prev_values"] = nalg.DequeVal("prev_values", Yh, log)
-        pnames = [p.get("name") for p in cl["params"]]
+        pnames = [p.get("name") for p in (cl["fn_item"]["params"] if "fn_item" in cl else cl["params"])]
         if len(pnames) != 4:
             raise Missing("residual closure %s has %d parameters" % (name, len(pnames)))
         it.root_alias[pnames[0]] = "self"
@@ -452,7 +469,10 @@ def bdf_residuals(F, impl_selfty, O):
                 except Exception:
                     pass
         try:
-            v = it.apply_closure(sym.ClosureVal(cl, None), [sym.S("self"), tt, yy, sym.Opaque("data")], cl)
+            if "fn_item" in cl:
+                v = it.call_crate_fn(cl["fn_item"], [sym.S("self"), tt, yy, sym.Opaque("data")], cl)
+            else:
+                v = it.apply_closure(sym.ClosureVal(cl, None), [sym.S("self"), tt, yy, sym.Opaque("data")], cl)
         except sym.Return as r:
             v = r.value
         if isinstance(v, sym.Variant) and v.name == "Ok":
